@@ -274,15 +274,35 @@ fn opposite3<T: Tier>(rep: &mut Report) {
     // (the last two: lengths far below / above the statement's 1e-3..1e3 band - "of any length")
     let (tiny, huge) = if T::NAME == "F" { (-30, 30) } else { (-250, 250) }; // fourth powers of the lengths still normal (8.5)
     let lens: [(i32, i32); 8] = [(0, 0), (-9, -9), (9, 9), (-9, 9), (3, -2), (-1, 0), (tiny, tiny), (huge, huge - 2)];
+    // a next to a coordinate axis (either sense), 2^-k away for every second k: the default axis of the half turn is a
+    // cross product with a coordinate axis, which degenerates there
+    let mut near_axis: Vec<[f64; 3]> = Vec::new();
+    for ax in 0..3 {
+        for sg in [1.0, -1.0] {
+            for k in (4..=(if T::NAME == "F" { 22 } else { 50 })).step_by(2) {
+                let d = 2f64.powi(-k);
+                let mut v = [0.0; 3];
+                v[ax] = sg;
+                v[(ax + 1) % 3] = d;
+                v[(ax + 2) % 3] = -d * 0.75;
+                let n = (1.0 + 1.5625 * d * d).sqrt();
+                near_axis.push(v.map(|c| c / n));
+            }
+        }
+    }
     rep.cases(
         "opposite3",
         T::NAME,
-        &format!("{} rational unit vectors a (rounded), b = -a exactly; between_vectors (Quaternion, Basis3) and from_arc(2^i a, -2^j a, None | perpendicular axis) for (i, j) in {:?}", us.len(), lens),
-        us.len(),
+        &format!("{} rational unit vectors a (rounded) and {} unit vectors 2^-k from a coordinate axis, b = -a exactly; between_vectors (Quaternion, Basis3) and from_arc(2^i a, -2^j a, None | perpendicular axis) for (i, j) in {:?}", us.len(), near_axis.len(), lens),
+        us.len() + near_axis.len(),
         Guard::states(20).distinct(20),
         |i, ctx| {
-            let (x, d) = us[i];
-            let a: [T; 3] = std::array::from_fn(|j| T::q(x[j], d));
+            let a: [T; 3] = if i < us.len() {
+                let (x, d) = us[i];
+                std::array::from_fn(|j| T::q(x[j], d))
+            } else {
+                near_axis[i - us.len()].map(|c| num_traits::cast::<f64, T>(c).unwrap())
+            };
             let b: [T; 3] = a.map(|c| -c);
             let (af, bf): ([f64; 3], [f64; 3]) = (a.map(|c| c.f()), b.map(|c| c.f()));
             ctx.describe(|| format!("a={:?} b=-a", a));
